@@ -31,6 +31,8 @@ def configs(tier, seed):
     # the drains of the real writer loop, with backend faults: whatever the writer does with a batch after draining it,
     # no datapoint may be handed out twice and no newer value may be overwritten by an older one
     cfgs.append(dict(name='%s/writer' % st, strategy=st, mode='writer', max='inf'))
+    # the reactor thread's other dealings with the cache: the instrumentation tick reads the size and stores self-metrics
+    cfgs.append(dict(name='%s/ticks' % st, strategy=st, mode='ticks', max='inf'))
   return cfgs
 
 
@@ -93,7 +95,12 @@ def run_writer_config(cfg, res, world):
             case=dict(ops=ops, plan=plan, deviations=h.deviations))
 
 
-def gen_history(r, short=False):
+def gen_history(r, short=False, ticks=False):
+  if ticks:
+    ops, ndr = gen_history(r, short=True)
+    for _ in range(r.randint(1, 2)):
+      ops.insert(r.randrange(1, len(ops) + 1), ('tick',))
+    return ops, ndr + r.randint(0, 2)
   nm = r.randint(1, 5)
   nt = r.randint(1, 4)
   metrics = ['m%d' % i for i in range(nm)]
@@ -196,6 +203,14 @@ def run_config(cfg, res):
   ns = boot.boot('carbon-cache', {'CACHE_WRITE_STRATEGY': cfg['strategy'], 'MAX_CACHE_SIZE': cfg.get('max', 'inf'), 'USE_FLOW_CONTROL': False})
   if cfg.get('mode') == 'writer':
     return run_writer_config(cfg, res, cachesim.World(ns, trace_files=('cache.py', 'events.py', 'writer.py')))
+  if cfg.get('mode') == 'ticks':
+    world = cachesim.World(ns, trace_files=('cache.py', 'events.py', 'instrumentation.py'))
+    r = gen.rng(cfg['seed'], 'C02t', cfg['name'])
+    for i in range(2 if cfg['tier'] == 'quick' else 8):
+      ops, ndr = gen_history(r, ticks=True)
+      res.count('histories_with_instrumentation_ticks')
+      explore(world, res, ops, ndr, r, cfg['tier'], oracle, False, cfg['strategy'] + '/ticks')
+    return
   world = cachesim.World(ns)
   r = gen.rng(cfg['seed'], 'C02', cfg['name'])
   nh = (3, 3) if cfg['tier'] == 'quick' else (8, 10)
